@@ -585,21 +585,7 @@ func run(c Case) ev.Verdict {
 		return ev.Fail("%d operations, %d responses, server saw %d requests", len(c.Ops), len(msgs), len(reqs))
 	}
 
-	// 1. the wire is exactly: LF (return after the hello), then per request its framed input and
-	// one return (two in 1.1)
-	want := []byte("\n")
-	for _, m := range msgs {
-		want = append(want, m.framed...)
-		want = append(want, '\n')
-
-		if c.Version == "1.1" {
-			want = append(want, '\n')
-		}
-	}
-
-	if !bytes.Equal(post, want) {
-		return ev.Fail("bytes on the wire after the hello differ from the responses' FramedInput + returns:\n got %q\nwant %q", post, want)
-	}
+	// (the response's FramedInput field is informational: the statement is about the wire and Input)
 
 	// 2. strict independent decode of the whole stream
 	var decoded [][]byte
@@ -642,10 +628,6 @@ func run(c Case) ev.Verdict {
 	for i, m := range msgs {
 		if !bytes.Equal(decoded[i], m.input) {
 			return ev.Fail("message %d on the wire decodes to %q but the response reports Input %q", i, decoded[i], m.input)
-		}
-
-		if c.Version == "1.1" && !bytes.HasPrefix(m.framed, []byte("#")) {
-			return ev.Fail("message %d: 1.1 FramedInput does not start with a chunk header: %q", i, m.framed[:min(20, len(m.framed))])
 		}
 
 		hasDecl := bytes.HasPrefix(m.input, []byte(sim.XMLDecl))
